@@ -335,7 +335,12 @@ class Roles:
             raise KeyError("%s matches %d bodies: %s" % (what, len(c), c[:4]))
         return c[0]
 
-    def _cone_stores_field(self, k, field):
+    def _cone_stores_field(self, k, field, seen=None):
+        """does k, one of its closures or a private function it calls store to a field of that name?"""
+        seen = seen if seen is not None else set()
+        if k in seen or k not in self.F.bodies:
+            return False
+        seen.add(k)
         for kk in [k] + self.F.closures_of(k):
             b = self.F.bodies[kk]
             for blk in b["blocks"]:
@@ -344,6 +349,13 @@ class Roles:
                         for e in st[1][1]:
                             if isinstance(e, list) and e[0] == "f" and e[2] == field:
                                 return True
+                t = blk["term"]
+                if t["k"] == "call":
+                    cn = F.callee_name(t)
+                    cb = self.F.bodies.get(cn)
+                    if cb is not None and not cb["glue"] and cb["vis"] != "pub" and cb["kind"] != "Closure" and len(seen) < 12 \
+                            and self._cone_stores_field(cn, field, seen):
+                        return True
         return False
 
     def _trace_variant(self, b):
